@@ -6,6 +6,10 @@ import J5V.Compile.AppendFresh
 import J5V.Compile.ExactProofs
 import J5V.Compile.AppendEdit
 import J5V.Compile.AppendEditSvc
+import J5V.Compile.EvolveAdm
+import J5V.Compile.EvolveEnumPkg
+import J5V.Compile.EvolveDeepSvc
+import J5V.Generated.EvolveFacts
 /-!
 # C13 — appending declarations never changes existing wire identities
 
@@ -265,6 +269,59 @@ theorem C13_append_field_method_pkg (b b' : Bundle) (pkg : Str) (fi i m : Nat) (
         (fun c => by rw [itemEnums_serviceFile, itemEnums_serviceFile])
         (fun c => serviceItem_svcs c sv M1 M2 mt mt' rq r prop h4 h6) fs fs' hc hc')
 
+/-- **Append a field at any depth below a request or a response — package level.** Path
+`el i :: method m :: (req | res) :: rest` with `rest` any path of `prop j` steps into inline objects /
+oneofs of the request (response), through array and map items. Both versions compiling and the names
+the property exports there (`methodDeepExportNames`) being new to the package: every generated file
+is generated again with the SAME services (every rpc unchanged: it never reads the property list) and
+every message found again with its old fields a prefix and, recursively, its nested messages found
+again in the same way (`FileSkel.LeDeep`). `rest = []` is `C13_append_field_method_pkg`. -/
+theorem C13_append_field_method_deep_pkg (b b' : Bundle) (pkg : Str) (fi i m : Nat) (rq : Bool)
+    (rest : List PStep) (prop : Property)
+    (he : (Edit.appendField fi (.el i :: .method m :: reqStep rq :: rest) prop).apply pkg b = some b')
+    (fs fs' : List FileSkel) (h : compilePkg b pkg = .ok fs) (h' : compilePkg b' pkg = .ok fs')
+    (hfresh : ∀ p path imports E1 E2 sv M1 M2 mt r decl, b.find pkg = some p →
+      p.files[fi]? = some (.j5s path imports (E1 ++ [.service sv] ++ E2) decl) → E1.length = i →
+      sv.methods = M1 ++ [mt] ++ M2 → M1.length = m →
+      (if rq then mt.request else mt.response) = some r →
+      ∀ x ∈ methodDeepExportNames rq mt rest r prop, x ∉ pkgExportNames p) :
+    ∀ f ∈ fs, ∃ f' ∈ fs', f.LeDeep f' := by
+  obtain ⟨p, pre, post, g, g', hf, hp, hlen, happ, hf', hother, hl⟩ := apply_edit_struct _ b pkg b' he
+  cases g with
+  | proto pth msgs enums => simp [Edit.applyFile] at happ
+  | j5s path imports elems decl =>
+    simp only [Edit.applyFile] at happ
+    obtain ⟨elems', hed, rfl⟩ := Option.map_eq_some_iff.mp happ
+    obtain ⟨E1, E2, sv, M1, M2, mt, mt', r, r', h1, h2, h3, h4, h5, h6, h7⟩ :=
+      editElems_field_method_deep prop i m rq rest elems elems' hed
+    subst h1; subst h2
+    have hget : p.files[fi]? = some (.j5s path imports (E1 ++ [.service sv] ++ E2) decl) := by
+      rw [hp]
+      simp only [Edit.file] at hlen
+      rw [← hlen]; simp
+    have hr : (if rq then mt.request else mt.response) = some r := by
+      cases rq
+      · exact h6.1
+      · exact h6.1
+    have hfr := hfresh p path imports E1 E2 sv M1 M2 mt r decl hf hget h3 h4 h5 hr
+    have hexp := editProps_exports prop rest r r' h7 [methodObjName rq mt]
+    obtain ⟨A0, C0, hA, hB, hrefs⟩ := serviceItem_exports_deep sv M1 M2 mt mt' rq r r' _ h4 h6 hexp
+    exact replace_elems_compile_R FileSkel.LeDeep FileSkel.LeDeep.refl b b' pkg p pre post path imports
+      _ _ decl hp hf hf' hother hl fs fs' h h'
+      (fun k => k ∉ methodDeepExportNames rq mt rest r prop)
+      (fun s s' hs hs' => summary_single_item path imports E1 E2 (.service sv)
+        (.service { sv with methods := M1 ++ [mt'] ++ M2 }) (.serviceFile [sv])
+        (.serviceFile [{ sv with methods := M1 ++ [mt'] ++ M2 }]) rfl rfl A0 _ C0 hA hB hrefs
+        s s' hs hs')
+      (fun f _ r _ hmem hx => hfr r.2 hx hmem)
+      (fun res fs fs' hc hc' => convertFile_single_item_deep res path imports E1 E2 (.service sv)
+        (.service { sv with methods := M1 ++ [mt'] ++ M2 }) (.serviceFile [sv])
+        (.serviceFile [{ sv with methods := M1 ++ [mt'] ++ M2 }]) rfl rfl rfl
+        (fun c => serviceItem_msgs_deep c sv M1 M2 mt mt' rq r r' h4 h6
+          (fun np io n => editProps_deep c prop rest r r' h7 np io n))
+        (fun c => by rw [itemEnums_serviceFile, itemEnums_serviceFile])
+        (fun c => serviceItem_svcs_deep c sv M1 M2 mt mt' rq r r' h4 h6) fs fs' hc hc')
+
 /-- **Append a field to a topic message — the edit itself, package level.** Path `[el i, msg m]`
 (`k = 0`: publish / upsert / event topics), `[el i, reqm m]` (`k = 1`) or `[el i, repm m]` (`k ≥ 2`,
 request / reply topics): the `i`-th element of the file is a topic and one of its messages gets the
@@ -310,43 +367,136 @@ theorem C13_append_field_topic_pkg (b b' : Bundle) (pkg : Str) (fi i k m : Nat) 
         (fun c => by rw [itemEnums_topicFile, itemEnums_topicFile])
         (fun c => topicItem_svcs c t t' N1 N2 tn tn' T1 T2 tm prop n1 n2 hx) fs fs' hc hc')
 
+/-- **Append a field at any depth below a topic message — package level.** Path
+`el i :: (msg m | reqm m | repm m) :: rest`, all four topic types, `rest` any path of `prop j` steps into
+inline objects / oneofs of the message. Freshness of the names the property exports there
+(`topicDeepExportNames`, asked for every message of the topic): the SAME topic services, every message
+found again with its old fields (including the implicit metadata field) a prefix and its nested
+messages found again recursively (`FileSkel.LeDeep`). `rest = []` is `C13_append_field_topic_pkg`. -/
+theorem C13_append_field_topic_deep_pkg (b b' : Bundle) (pkg : Str) (fi i k m : Nat)
+    (rest : List PStep) (prop : Property)
+    (he : (Edit.appendField fi (.el i :: topicStep k m :: rest) prop).apply pkg b = some b')
+    (fs fs' : List FileSkel) (h : compilePkg b pkg = .ok fs) (h' : compilePkg b' pkg = .ok fs')
+    (hfresh : ∀ p path imports E1 E2 t decl, b.find pkg = some p →
+      p.files[fi]? = some (.j5s path imports (E1 ++ [.topic t] ++ E2) decl) → E1.length = i →
+      ∀ tn ∈ topicNodes t, ∀ tm ∈ tn.msgs, ∀ x ∈ topicDeepExportNames tn tm rest prop,
+        x ∉ pkgExportNames p) :
+    ∀ f ∈ fs, ∃ f' ∈ fs', f.LeDeep f' := by
+  obtain ⟨p, pre, post, g, g', hf, hp, hlen, happ, hf', hother, hl⟩ := apply_edit_struct _ b pkg b' he
+  cases g with
+  | proto pth msgs enums => simp [Edit.applyFile] at happ
+  | j5s path imports elems decl =>
+    simp only [Edit.applyFile] at happ
+    obtain ⟨elems', hed, rfl⟩ := Option.map_eq_some_iff.mp happ
+    obtain ⟨E1, E2, t, t', h1, h2, h3, ht⟩ := editElems_field_topic_deep prop i k m rest elems elems' hed
+    subst h1; subst h2
+    obtain ⟨N1, N2, tn, tn', T1, T2, tm, ps', n1, n2, hx, hps⟩ := editTopic_field_deep prop k m rest t t' ht
+    have hget : p.files[fi]? = some (.j5s path imports (E1 ++ [.topic t] ++ E2) decl) := by
+      rw [hp]
+      simp only [Edit.file] at hlen
+      rw [← hlen]; simp
+    have hfr := hfresh p path imports E1 E2 t decl hf hget h3 tn (by rw [n1]; simp) tm
+      (by rw [hx.1]; simp)
+    have hexp := editProps_exports prop rest tm.props ps' hps [topicObjName tn tm]
+    obtain ⟨A0, N, C0, hA, hB, hN, hrefs⟩ := topicItem_exports_deep t t' N1 N2 tn tn' T1 T2 tm ps' _ n1 n2 hx hexp
+    exact replace_elems_compile_R FileSkel.LeDeep FileSkel.LeDeep.refl b b' pkg p pre post path imports
+      _ _ decl hp hf hf' hother hl fs fs' h h'
+      (fun k => k ∉ topicDeepExportNames tn tm rest prop)
+      (fun s s' hs hs' => by
+        have := summary_single_item path imports E1 E2 (.topic t) (.topic t') (.topicFile [t])
+          (.topicFile [t']) rfl rfl A0 N C0 hA hB hrefs s s' hs hs'
+        exact ⟨fun X Y k hk => this.1 X Y k (fun hm => hk (hN k hm)), this.2⟩)
+      (fun f _ r _ hmem hx => hfr r.2 hx hmem)
+      (fun res fs fs' hc hc' => convertFile_single_item_deep res path imports E1 E2 (.topic t) (.topic t')
+        (.topicFile [t]) (.topicFile [t']) rfl rfl rfl
+        (fun c => topicItem_msgs_deep c t t' N1 N2 tn tn' T1 T2 tm ps' n1 n2 hx
+          (fun np io n => editProps_deep c prop rest tm.props ps' hps np io n))
+        (fun c => by rw [itemEnums_topicFile, itemEnums_topicFile])
+        (fun c => topicItem_svcs_deep c t t' N1 N2 tn tn' T1 T2 tm ps' n1 n2 hx) fs fs' hc hc')
+
+/-- **Append a field at any depth — the edit itself, package level.** Path `el i :: rest` where the
+`i`-th element of the file is an object or a oneof (`hkind`) and `rest` is any path the edit accepts
+below it: `nest k` steps into nested objects / oneofs (any depth), then `prop j` steps into inline
+objects / oneofs (any depth, through array and map items); the property is appended at the end of the
+container the path ends in. Both versions compiling, and the names the property exports under that
+container's nest path (`deepFieldExportNames`: its inline types) being new to the package: every
+generated file is generated again under the same name and package with the same services and enums,
+and every message is found again — `FileSkel.LeDeep` — with the same name, kind and annotation, its
+old fields (name, JSON name, number, type, label, optionality, type name, oneof index) a prefix of the
+new ones and, recursively at every depth, each nested message found again in the same way, each
+nested enum with its old values a prefix. On the path every field list is in fact unchanged
+(`editProps_deep`); the container at the end of the path gets the new field last. -/
+theorem C13_append_field_nested_pkg (b b' : Bundle) (pkg : Str) (fi i : Nat) (rest : List PStep)
+    (prop : Property)
+    (he : (Edit.appendField fi (.el i :: rest) prop).apply pkg b = some b')
+    (fs fs' : List FileSkel) (h : compilePkg b pkg = .ok fs) (h' : compilePkg b' pkg = .ok fs')
+    (hkind : ∀ p path imports elems decl, b.find pkg = some p →
+      p.files[fi]? = some (.j5s path imports elems decl) → ∃ io o, elems[i]? = some (declElem io o))
+    (hfresh : ∀ p path imports E1 E2 io o decl, b.find pkg = some p →
+      p.files[fi]? = some (.j5s path imports (E1 ++ [declElem io o] ++ E2) decl) → E1.length = i →
+      ∀ x ∈ deepFieldExportNames rest o prop, x ∉ pkgExportNames p) :
+    ∀ f ∈ fs, ∃ f' ∈ fs', f.LeDeep f' := by
+  obtain ⟨p, pre, post, g, g', hf, hp, hlen, happ, hf', hother, hl⟩ := apply_edit_struct _ b pkg b' he
+  cases g with
+  | proto pth msgs enums => simp [Edit.applyFile] at happ
+  | j5s path imports elems decl =>
+    simp only [Edit.applyFile] at happ
+    obtain ⟨elems', hed, rfl⟩ := Option.map_eq_some_iff.mp happ
+    have hget0 : p.files[fi]? = some (.j5s path imports elems decl) := by
+      rw [hp]
+      simp only [Edit.file] at hlen
+      rw [← hlen]; simp
+    obtain ⟨io, o, hk⟩ := hkind p path imports elems decl hf hget0
+    obtain ⟨E1, E2, o', h1, h2, h3, hdecl⟩ := editElems_field_decl prop i rest elems elems' io o hk hed
+    subst h1; subst h2
+    have hfr := hfresh p path imports E1 E2 io o decl hf hget0 h3
+    exact replace_elems_compile_R FileSkel.LeDeep FileSkel.LeDeep.refl b b' pkg p pre post path imports
+      _ _ decl hp hf hf' hother hl fs fs' h h'
+      (fun k => k ∉ deepFieldExportNames rest o prop)
+      (fun s s' hs hs' => summary_append_field_deep path imports E1 E2 io o o' rest prop hdecl s s' hs hs')
+      (fun f _ r _ hmem hx => hfr r.2 hx hmem)
+      (fun res fs fs' hc hc' => convertFile_append_field_deep res path imports E1 E2 io o o' rest prop hdecl
+        fs fs' hc hc')
+
 /-- **Append an option — the edit itself, package level.** Let `b'` be the bundle after
 `appendOption` at a top-level enum (path `[el i]`; the edit requires the `i`-th element of the file
-to be an enum), both versions compiling up to the link step. The export entry of the enum itself
-changes (an `EnumRef` carries the value names, which `rules.in / notIn` and default filters of
-referring fields are checked against), so the statement is for an enum that no field of the package
-refers to by its name: then every generated file is generated again under the same name and package
-with the same services and the same messages (up to `LeEdit`, here equality of every message), and
-every enum is found again under its name with its old values — names and numbers — as a prefix. -/
+to be an enum), both versions compiling up to the link step. No further hypothesis: the enum may be
+referred to by any number of fields of the package, with `in` / `notIn` rules and default filters
+naming its values. The export entry of the enum itself changes (an `EnumRef` carries the value
+names, which those rules are checked against); every lookup in the new export table gives the old
+result or the same enum with more value names (`UpOrEq`), and a conversion that succeeded is
+invariant under more value names of referenced enums (`convertFile_up`: every `mapValues` check that
+passed still passes, nothing else reads the names). Then every generated file is generated again
+under the same name and package with the same services and the same messages (up to `LeEdit`, here
+equality of every message), and every enum is found again under its name with its old values —
+names and numbers — as a prefix. (Until round 4 this needed "no field of the package refers to the
+enum by name".) -/
 theorem C13_append_option_pkg (b b' : Bundle) (pkg : Str) (fi i : Nat) (o : Str)
     (he : (Edit.appendOption fi [.el i] o).apply pkg b = some b')
-    (fs fs' : List FileSkel) (h : compilePkg b pkg = .ok fs) (h' : compilePkg b' pkg = .ok fs')
-    (hnoref : ∀ p path imports E1 E2 e decl, b.find pkg = some p →
-      p.files[fi]? = some (.j5s path imports (E1 ++ [.enum e] ++ E2) decl) → E1.length = i →
-      ∀ f ∈ p.files, ∀ r ∈ srcFileRefs f, r.2 ≠ e.name) :
+    (fs fs' : List FileSkel) (h : compilePkg b pkg = .ok fs) (h' : compilePkg b' pkg = .ok fs') :
     ∀ f ∈ fs, ∃ f' ∈ fs', f.LeEdit f' := by
   obtain ⟨p, pre, post, g, g', hf, hp, hlen, happ, hf', hother, hl⟩ := apply_edit_struct _ b pkg b' he
   cases g with
   | proto pth msgs enums => simp [Edit.applyFile] at happ
   | j5s path imports elems decl =>
     simp only [Edit.applyFile] at happ
-    cases hed : editElems (.option o) [.el i] elems with
-    | none => simp [hed] at happ
-    | some elems' =>
-      simp only [hed, Option.map_some, Option.some.injEq] at happ
-      subst happ
-      obtain ⟨E1, E2, e, h1, h2, h3⟩ := editElems_option_top o i elems elems' hed
-      subst h1; subst h2
-      have hget : p.files[fi]? = some (.j5s path imports (E1 ++ [.enum e] ++ E2) decl) := by
-        rw [hp]
-        simp only [Edit.file] at hlen
-        rw [← hlen]; simp
-      have hnr := hnoref p path imports E1 E2 e decl hf hget h3
-      exact replace_elems_compile b b' pkg p pre post path imports _ _ decl hp hf hf' hother hl fs fs' h h'
-        (fun k => k ≠ e.name)
-        (fun s s' hs hs' => summary_append_option_top path imports E1 E2 e o s s' hs hs')
-        (fun f hfm r hr _ => hnr f hfm r hr)
-        (fun res fs fs' hc hc' => convertFile_append_option_top res path imports E1 E2 e o fs fs' hc hc')
+    obtain ⟨elems', hed, rfl⟩ := Option.map_eq_some_iff.mp happ
+    obtain ⟨E1, E2, e, h1, h2, h3⟩ := editElems_option_top o i elems elems' hed
+    subst h1; subst h2
+    exact replace_elems_compile_up FileSkel.LeEdit FileSkel.LeEdit.refl b b' pkg p pre post path imports
+      _ _ decl hp hf hf' hother hl fs fs' h h'
+      (fun s s' hs hs' => summary_append_option_up path imports E1 E2 e o s s' hs hs')
+      (fun res fs fs' hc hc' => convertFile_append_option_top res path imports E1 E2 e o fs fs' hc hc')
+
+/-- the congruence behind it, on its own: a file that converts keeps converting to the SAME files when
+the resolver changes only by giving referenced enums more value names -/
+theorem C13_convert_up (res res' : Resolver) (path : Str) (imports : List Import)
+    (elems : List Elem) (fs : List FileSkel) (h : convertFile res path imports elems = .ok fs)
+    (hag : ∀ im, j5Imports (packageFromFilename (path ++ b!".proto")) imports = .ok im →
+      AgreeUp { resolve := resolveTypeNoImport im res } { resolve := resolveTypeNoImport im res' }
+        (fileRefs (packageFromFilename (path ++ b!".proto")) elems)) :
+    convertFile res' path imports elems = .ok fs :=
+  convertFile_up res res' path imports elems fs h hag
 
 /-- conversion depends on the resolver only at the references it contains: the bridge between the
 per-container theorems and package-level edits -/
@@ -360,6 +510,65 @@ theorem C13_convert_congr (res res' : Resolver) (path : Str) (imports : List Imp
 /-- messages, enums and services are only ever appended to a file under construction
 (`addMessage` / `addEnum` / `addService`), whatever the step -/
 theorem C13_addMessage_prefix (r : Root) (s : Step) : r.Le (r.apply s) := Root.le_apply r s
+
+/-! ## Sequences of edits
+
+`FileSkel.LeAny` (Compile/EvolveSeq.lean) is the common relation of all append edits: same file name
+and package, the old services a prefix of the new ones, every message found again under its name
+with its old fields a prefix and — recursively, at any depth — every nested message found again
+grown at most (`MsgSkel.LeDeep`), every enum found again with its old values a prefix. -/
+
+/-- `LeAny` is a preorder and contains both single-edit relations (`Le`: declaration appends,
+`LeEdit`: field / option appends) -/
+theorem C13_le_preorder :
+    (∀ f : FileSkel, f.LeAny f) ∧ (∀ a b c : FileSkel, a.LeAny b → b.LeAny c → a.LeAny c) ∧
+    (∀ f f' : FileSkel, f.Le f' → f.LeAny f') ∧ (∀ f f' : FileSkel, f.LeEdit f' → f.LeAny f') :=
+  ⟨FileSkel.LeAny.refl, fun _ _ _ h1 h2 => h1.trans h2, fun _ _ h => h.any, fun _ _ h => h.any⟩
+
+/-- **Any admissible single edit, package level.** `Admissible pkg b e` (Compile/EvolveAdm.lean) lists
+the edit kinds proved above with their decidable side conditions (fresh names; for an option: the
+enum is not referred to by name). One statement for all of them, in the common relation. -/
+theorem C13_append_any_pkg (b b' : Bundle) (pkg : Str) (e : Edit) (hadm : Admissible pkg b e)
+    (he : e.apply pkg b = some b')
+    (fs fs' : List FileSkel) (h : compilePkg b pkg = .ok fs) (h' : compilePkg b' pkg = .ok fs') :
+    ∀ f ∈ fs, ∃ f' ∈ fs', f.LeAny f' := by
+  intro f hf
+  cases hadm with
+  | decl fi el hfr =>
+    exact (C13_append_decl_fresh b b' pkg fi el he fs fs' h h' hfr f hf).imp fun _ hx => ⟨hx.1, hx.2.any⟩
+  | field fi i prop hfr =>
+    exact (C13_append_field_pkg b b' pkg fi i prop he fs fs' h h' hfr f hf).imp fun _ hx => ⟨hx.1, hx.2.any⟩
+  | nested fi i rest prop hk hfr =>
+    exact (C13_append_field_nested_pkg b b' pkg fi i rest prop he fs fs' h h' hk hfr f hf).imp
+      fun _ hx => ⟨hx.1, hx.2.any⟩
+  | method fi i m rq prop hfr =>
+    exact (C13_append_field_method_pkg b b' pkg fi i m rq prop he fs fs' h h' hfr f hf).imp
+      fun _ hx => ⟨hx.1, hx.2.any⟩
+  | methodDeep fi i m rq rest prop hfr =>
+    exact (C13_append_field_method_deep_pkg b b' pkg fi i m rq rest prop he fs fs' h h' hfr f hf).imp
+      fun _ hx => ⟨hx.1, hx.2.any⟩
+  | topic fi i k m prop hfr =>
+    exact (C13_append_field_topic_pkg b b' pkg fi i k m prop he fs fs' h h' hfr f hf).imp
+      fun _ hx => ⟨hx.1, hx.2.any⟩
+  | topicDeep fi i k m rest prop hfr =>
+    exact (C13_append_field_topic_deep_pkg b b' pkg fi i k m rest prop he fs fs' h h' hfr f hf).imp
+      fun _ hx => ⟨hx.1, hx.2.any⟩
+  | option fi i o =>
+    exact (C13_append_option_pkg b b' pkg fi i o he fs fs' h h' f hf).imp fun _ hx => ⟨hx.1, hx.2.any⟩
+
+/-- **Sequences of edits, package level.** Any list of edits applied left to right (`applyEdits`),
+each admissible for the version it is applied to and every intermediate version compiling
+(`SeqOk`): every file generated from the first version is generated again from the last one, with
+every message, field (name, JSON name, number, type, label, optionality, type name, oneof index),
+enum value (name, number), service and method found again unchanged. Induction over the edit list
+with transitivity of `LeAny`; no bound on the length. -/
+theorem C13_append_seq_pkg (pkg : Str) (es : List Edit) (b b' : Bundle) (fs fs' : List FileSkel)
+    (hok : SeqOk (Admissible pkg) pkg es b) (happ : applyEdits pkg es b = some b')
+    (h : compilePkg b pkg = .ok fs) (h' : compilePkg b' pkg = .ok fs') :
+    ∀ f ∈ fs, ∃ f' ∈ fs', f.LeAny f' :=
+  seq_rel FilesLeAny FilesLeAny.refl (fun _ _ _ h1 h2 => h1.trans h2) (Admissible pkg) pkg
+    (fun b e b' fs fs' hadm he h h' => C13_append_any_pkg b b' pkg e hadm he fs fs' h h')
+    es b b' fs fs' hok happ h h'
 
 /-! ## Non-vacuity -/
 
@@ -440,7 +649,7 @@ example : ((Edit.appendField 0 [.el 0] newProp).apply b!"foo.v1" (bun [])).isSom
     ([fileA [], fileB].map sumOf).flatMap (fun s => s.exports.map (·.1)) = [b!"A", b!"B"] := by
   decide
 
-/-- …and of `C13_append_option_pkg`: an enum `E` next to the object, referenced by no field; the
+/-- …and of `C13_append_option_pkg`: an enum `E` next to the object (here referenced by no field); the
 option `TWO` is appended -/
 def fileE : SrcFile :=
   .j5s b!"foo/v1/a.j5s" [] [.enum { name := b!"E", pfx := [], opts := [b!"ONE"] },
@@ -454,6 +663,43 @@ example : ((Edit.appendOption 0 [.el 0] b!"TWO").apply b!"foo.v1" bunE).isSome =
     [fileE, fileB].flatMap srcFileRefs = [([], b!"A")] := by
   decide
 
+/-- a publish topic whose message holds an inline object; the property is appended inside it (path
+`msg 0, prop 1`), and inside the inline object of a reply (path `repm 0, prop 0`): the hypotheses of
+`C13_append_field_topic_deep_pkg` -/
+def fileTD : SrcFile :=
+  .j5s b!"foo/v1/t.j5s" []
+    [.topic { name := b!"Foo", type := .publish [{ name := some b!"Created", props :=
+        [.mk b!"id" false false (.string [] false),
+         .mk b!"detail" false false (.objectInl [] [.mk b!"a" false false (.string [] false)] false [])] }] },
+     .topic { name := b!"Bar", type := (.reqres [{ name := some b!"Do", props := [] }]
+        [{ name := some b!"Done", props := [.mk b!"out" false false
+          (.objectInl [] [.mk b!"b" false false (.bool [] false)] false [])] }]) }]
+    b!"foo.v1"
+def bunTD : Bundle := { pkgs := [ { name := b!"foo.v1", files := [fileTD] } ] }
+def bunTD' (i k : Nat) (rest : List PStep) : Bundle :=
+  match (Edit.appendField 0 (.el i :: topicStep k 0 :: rest) newProp).apply b!"foo.v1" bunTD with
+  | some b => b | none => { pkgs := [] }
+
+example : (compilePkg bunTD b!"foo.v1").isOk = true ∧
+    (compilePkg (bunTD' 0 0 [.prop 1]) b!"foo.v1").isOk = true ∧
+    (compilePkg (bunTD' 1 2 [.prop 0]) b!"foo.v1").isOk = true ∧
+    (bunTD' 0 0 [.prop 1]).pkgs.length = 1 ∧ (bunTD' 1 2 [.prop 0]).pkgs.length = 1 ∧
+    pkgExportNames { name := b!"foo.v1", files := [fileTD] } =
+      [b!"CreatedMessage", b!"CreatedMessage.Detail", b!"DoMessage", b!"DoneMessage", b!"DoneMessage.Out"] := by
+  decide
+/-- …and for an enum that IS referred to, by a field with an `in` rule naming one of its values: the
+option is appended, both versions compile -/
+def fileER : SrcFile :=
+  .j5s b!"foo/v1/a.j5s" [] [.enum { name := b!"E", pfx := [], opts := [b!"ONE"] },
+    .object (.mk b!"A" [.mk b!"kind" false false (.enumRef [] b!"E" [⟨b!"in", .strs [b!"ONE"]⟩] none)] [] none)] b!"foo.v1"
+def bunER : Bundle := { pkgs := [ { name := b!"foo.v1", files := [fileER, fileB] } ] }
+def bunER' : Bundle :=
+  match (Edit.appendOption 0 [.el 0] b!"TWO").apply b!"foo.v1" bunER with | some b => b | none => { pkgs := [] }
+
+example : ((Edit.appendOption 0 [.el 0] b!"TWO").apply b!"foo.v1" bunER).isSome = true ∧
+    (compilePkg bunER b!"foo.v1").isOk = true ∧ (compilePkg bunER' b!"foo.v1").isOk = true ∧
+    [fileER, fileB].flatMap srcFileRefs = [([], b!"E"), ([], b!"A")] := by
+  decide
 /-- …and of `C13_append_field_method_pkg`: a service with one method; a field with an inline object is
 appended to the request (`rq = true`) and a scalar to the response -/
 def fileS : SrcFile :=
@@ -473,6 +719,26 @@ example : ((Edit.appendField 0 [.el 0, .method 0, reqStep true] newProp).apply b
     ([fileS].map sumOf).flatMap (fun s => s.exports.map (·.1)) = [b!"GetFooRequest", b!"GetFooResponse"] := by
   decide
 
+/-- a service whose request holds an inline object with an inline object: the property is appended to
+`DoFooRequest.Filter.Range` (path `req, prop 1, prop 0`): the hypotheses of
+`C13_append_field_method_deep_pkg` -/
+def fileSD : SrcFile :=
+  .j5s b!"foo/v1/s.j5s" [] [.service { name := some b!"Foo", basePath := some b!"/foo", methods :=
+    [{ name := b!"DoFoo", verb := .post, path := b!"/x",
+       request := some [.mk b!"id" false false (.string [] false),
+         .mk b!"filter" false false (.objectInl [] [.mk b!"range" false false
+           (.objectInl [] [.mk b!"lo" false false (.string [] false)] false [])] false [])],
+       response := some [.mk b!"name" false false (.string [] false)] }] }] b!"foo.v1"
+def bunSD : Bundle := { pkgs := [ { name := b!"foo.v1", files := [fileSD] } ] }
+def bunSD' : Bundle :=
+  match (Edit.appendField 0 [.el 0, .method 0, .req, .prop 1, .prop 0] newProp).apply b!"foo.v1" bunSD with
+  | some b => b | none => { pkgs := [] }
+
+example : (compilePkg bunSD b!"foo.v1").isOk = true ∧ (compilePkg bunSD' b!"foo.v1").isOk = true ∧
+    bunSD'.pkgs.length = 1 ∧
+    pkgExportNames { name := b!"foo.v1", files := [fileSD] } =
+      [b!"DoFooRequest", b!"DoFooRequest.Filter", b!"DoFooRequest.Filter.Range", b!"DoFooResponse"] := by
+  decide
 /-- …and of `C13_append_field_topic_pkg`: a publish topic with a named message, and a request / reply
 topic; a field with an inline object is appended to the message / to the reply -/
 def fileT : SrcFile :=
@@ -490,5 +756,205 @@ example : (compilePkg bunT b!"foo.v1").isOk = true ∧ (compilePkg (bunT' 0 0) b
     ([fileT].map sumOf).flatMap (fun s => s.exports.map (·.1)) =
       [b!"CreatedMessage", b!"DoMessage", b!"DoneMessage"] := by
   decide
+
+/-- …and of `C13_append_field_nested_pkg`: object `D` with a nested object `N` (which has a nested
+oneof `W`) and a field `inner` holding an array of inline objects with an inline object `deep`; the
+property with the inline object `Zz` is appended to `D.N.W` (path `nest 0, nest 0`) and to
+`D.Inner.Deep` (path `prop 1, prop 0`); both edits apply, both versions compile, the new names are
+`D.N.W.Zz` / `D.Inner.Deep.Zz` and are not exported before -/
+def fileD : SrcFile :=
+  .j5s b!"foo/v1/d.j5s" []
+    [.object (.mk b!"D"
+      [.mk b!"x" false false (.string [] false),
+       .mk b!"inner" false false (.array (.objectInl [] [.mk b!"deep" false false
+          (.objectInl [] [.mk b!"y" false false (.string [] false)] false [])] false []) [])]
+      [.object (.mk b!"N" [.mk b!"a" false false (.bool [] false)]
+        [.oneof (.mk b!"W" [.mk b!"o1" false false (.string [] false)] [] none)] none)] none)]
+    b!"foo.v1"
+def bunD : Bundle := { pkgs := [ { name := b!"foo.v1", files := [fileD] } ] }
+def bunD' (rest : List PStep) : Bundle :=
+  match (Edit.appendField 0 (.el 0 :: rest) newProp).apply b!"foo.v1" bunD with
+  | some b => b | none => { pkgs := [] }
+def objD : ObjDecl := match fileD with
+  | .j5s _ _ [.object o] _ => o | _ => .mk [] [] [] none
+
+example : (compilePkg bunD b!"foo.v1").isOk = true ∧
+    (compilePkg (bunD' [.nest 0, .nest 0]) b!"foo.v1").isOk = true ∧
+    (compilePkg (bunD' [.prop 1, .prop 0]) b!"foo.v1").isOk = true ∧
+    (bunD' [.nest 0, .nest 0]).pkgs.length = 1 ∧ (bunD' [.prop 1, .prop 0]).pkgs.length = 1 ∧
+    deepFieldExportNames [.nest 0, .nest 0] objD newProp = [b!"D.N.W.Zz"] ∧
+    deepFieldExportNames [.prop 1, .prop 0] objD newProp = [b!"D.Inner.Deep.Zz"] ∧
+    pkgExportNames { name := b!"foo.v1", files := [fileD] } =
+      [b!"D", b!"D.Inner", b!"D.Inner.Deep", b!"D.N", b!"D.N.W"] := by
+  decide
+
+/-- the hypotheses of `C13_append_seq_pkg` on a concrete sequence of three edits of three kinds
+(declaration, field with an inline object, option of the enum just declared): all apply, all four
+versions compile; the side condition of the first edit is proved as an `Admissible` instance -/
+def seqEdits : List Edit := [.appendDecl 0 newDecl, .appendField 0 [.el 0] newProp, .appendOption 0 [.el 1] b!"TWO"]
+def bunSeq (k : Nat) : Bundle :=
+  match applyEdits b!"foo.v1" (seqEdits.take k) (bun []) with | some b => b | none => { pkgs := [] }
+
+example : (applyEdits b!"foo.v1" seqEdits (bun [])).isSome = true ∧
+    (compilePkg (bunSeq 0) b!"foo.v1").isOk = true ∧ (compilePkg (bunSeq 1) b!"foo.v1").isOk = true ∧
+    (compilePkg (bunSeq 2) b!"foo.v1").isOk = true ∧ (compilePkg (bunSeq 3) b!"foo.v1").isOk = true ∧
+    (bunSeq 3).pkgs.length = 1 := by decide
+
+example : Admissible b!"foo.v1" (bun []) (.appendDecl 0 newDecl) := by
+  apply Admissible.decl
+  intro p path imports elems decl hf hget n hn
+  have hp : p = { name := b!"foo.v1", files := [fileA [], fileB] } := by
+    have h0 : (bun []).find b!"foo.v1" = some { name := b!"foo.v1", files := [fileA [], fileB] } := rfl
+    rw [h0] at hf; exact (Option.some.inj hf).symm
+  subst hp
+  have hpath : path = b!"foo/v1/a.j5s" := by
+    simp only [fileA, List.getElem?_cons_zero, Option.some.injEq, SrcFile.j5s.injEq] at hget
+    exact hget.1.symm
+  subst hpath
+  have h1 : newExportNames b!"foo/v1/a.j5s" newDecl = [b!"E"] := by decide
+  have h2 : pkgExportNames { name := b!"foo.v1", files := [fileA [], fileB] } = [b!"A", b!"B"] := by decide
+  rw [h1] at hn
+  rw [h2]
+  simp only [List.mem_singleton] at hn
+  subst hn
+  decide
+
+/-! ## Source-fact obligations (regenerated by `extract/evolve.go` from the current source)
+
+The three mechanisms the property's anchors name, as go/ast facts: every mention of the counter /
+name / slice in question, in source order, with its enclosing control structure. A change of any of
+these functions changes a fact and breaks the `decide`; a function that is no longer found is
+emitted as `("unknown", "unknown")`. -/
+section Src
+open J5V.Generated.Evolve
+
+/-- mechanism 1 (schema.go `mapProperties`): the counter starts at 0, is written exactly once per iteration of each of the two loops (`++`, before the use) and its only use is the property's `number`: numbers are a function of the position — the model's `numberFrom` / `mapProperties` -/
+theorem C13_src_mapPropertiesCounter :
+    mapPropertiesCounter = [
+      ("top", "fieldNumber := int32(0)"),
+      ("for _, prop := range virtualPrepend", "fieldNumber++"),
+      ("for _, prop := range virtualPrepend", "number: fieldNumber"),
+      ("for idx, prop := range properties", "fieldNumber++"),
+      ("for idx, prop := range properties", "number: fieldNumber")] := by decide
+
+/-- …the result is built by `append` at the end only, once per iteration, virtual prepends first — the model's `numberFrom 0 virt ++ numberFrom virt.length props` -/
+theorem C13_src_mapPropertiesOut :
+    mapPropertiesOut = [
+      ("top", "out := make([]*propertyNode, 0, len(properties))"),
+      ("for _, prop := range virtualPrepend", "out = append(out, property)"),
+      ("for _, prop := range virtualPrepend", "append#0"),
+      ("if len(properties) == 0", "return out"),
+      ("for idx, prop := range properties", "out = append(out, property)"),
+      ("for idx, prop := range properties", "append#0"),
+      ("top", "return out")] := by decide
+
+/-- …both loops range over slices (declaration order), not maps -/
+theorem C13_src_mapPropertiesParams :
+    mapPropertiesParams = [
+      ("source", "SourceNode"),
+      ("sourcePath", "[]string"),
+      ("parent", "parentNode"),
+      ("properties", "[]*schema_j5pb.ObjectProperty"),
+      ("virtualPrepend", "[]*schema_j5pb.ObjectProperty")] := by decide
+
+/-- mechanism 1 for enums (conversion.go `visitEnumNode`): the only numbered calls are `addValue(0, first)` for an explicit zero and `addValue(idx+1, value)` with the range index — the model's `enumValues` -/
+theorem C13_src_enumAddValue :
+    enumAddValue = [
+      ("if len(optionsToSet) > 0 && isExplicitUnspecified(prefix, optionsToSet[0])", "eb.addValue(0, optionsToSet[0])"),
+      ("for idx, value := range optionsToSet", "eb.addValue(int32(idx+1), value)")] := by decide
+
+/-- …the ranged list is the declared option list, shortened only by dropping the explicit zero at its head -/
+theorem C13_src_enumOptionsToSet :
+    enumOptionsToSet = [
+      ("top", "optionsToSet := node.Schema.Options"),
+      ("top", "len#0"),
+      ("top", "cond len(optionsToSet) > 0 && isExplicitUnspecified(prefix, optionsToSet[0])"),
+      ("if len(optionsToSet) > 0 && isExplicitUnspecified(prefix, optionsToSet[0])", "eb.addValue(0, optionsToSet[0])"),
+      ("if len(optionsToSet) > 0 && isExplicitUnspecified(prefix, optionsToSet[0])", "optionsToSet = optionsToSet[1:]"),
+      ("for idx, value := range optionsToSet", "ranged optionsToSet")] := by decide
+
+/-- …`addValue` stores the number it is given (no renumbering); 0 overwrites slot 0, anything else is appended -/
+theorem C13_src_addValueNumber :
+    addValueNumber = [
+      ("top", "gl.Ptr#0"),
+      ("top", "cond number == 0"),
+      ("if schema.Description != \"\"", "e.comment([]int32{2, number}, schema.Description)")] := by decide
+
+/-- …`addValue` appends at the end (or overwrites the implicit zero), never inserts -/
+theorem C13_src_addValueMutations :
+    addValueMutations = [
+      ("if !strings.HasPrefix(name, e.prefix)", "name = e.prefix + name"),
+      ("if len(schema.Info) > 0", "value.Options = &descriptorpb.EnumValueOptions{}"),
+      ("if number == 0", "e.desc.Value[0] = value"),
+      ("else of number == 0", "e.desc.Value = append(e.desc.Value, value)")] := by decide
+
+/-- mechanism 2 (property.go): the default nesting name is `strcase.ToCamel(<property name>)` and is only handed to `buildFieldNode` — the model's `defName := toCamel name` in `bProperty` -/
+theorem C13_src_acceptDefaultName :
+    acceptDefaultName = [
+      ("top", "defaultNestingName := strcase.ToCamel(pn.schema.Name)"),
+      ("top", "buildFieldNode#2")] := by decide
+
+/-- …`buildFieldNode` passes it on unchanged (through array / map items) to the three `replaceNested*` functions — the model's `bField c np defName` -/
+theorem C13_src_buildFieldNodeDefaultName :
+    buildFieldNodeDefaultName = [
+      ("case *schema_j5pb.Field_Array", "buildFieldNode#2"),
+      ("case *schema_j5pb.Field_Map", "buildFieldNode#2"),
+      ("case *schema_j5pb.Field_Object", "replaceNestedObject#2"),
+      ("case *schema_j5pb.Field_Oneof", "replaceNestedOneof#2"),
+      ("case *schema_j5pb.Field_Enum", "replaceNestedEnum#2")] := by decide
+
+/-- …and the parent node likewise: the nest path of an inline type is the owner's, whatever the depth of array / map wrappers -/
+theorem C13_src_buildFieldNodeParent :
+    buildFieldNodeParent = [
+      ("case *schema_j5pb.Field_Array", "buildFieldNode#1"),
+      ("case *schema_j5pb.Field_Map", "buildFieldNode#1"),
+      ("case *schema_j5pb.Field_Object", "replaceNestedObject#1"),
+      ("case *schema_j5pb.Field_Oneof", "replaceNestedOneof#1"),
+      ("case *schema_j5pb.Field_Enum", "replaceNestedEnum#1")] := by decide
+
+/-- …`replaceNested*` use the default only to fill an empty name — `nm := if name = [] then defName else name` -/
+theorem C13_src_replaceNestedDefaultName :
+    replaceNestedDefaultName = [
+      ("replaceNestedObject", "case *schema_j5pb.ObjectField_Object / if st.Object.Name == \"\"", "st.Object.Name = defaultName"),
+      ("replaceNestedOneof", "case *schema_j5pb.OneofField_Oneof / if st.Oneof.Name == \"\"", "st.Oneof.Name = defaultName"),
+      ("replaceNestedEnum", "case *schema_j5pb.EnumField_Enum / if st.Enum.Name == \"\"", "st.Enum.Name = defaultName")] := by decide
+
+/-- …and build the inline node from (parent, schema) only: no index, counter or sibling enters the name -/
+theorem C13_src_replaceNestedParent :
+    replaceNestedParent = [
+      ("replaceNestedObject", "case *schema_j5pb.ObjectField_Object", "newObjectSchemaNode#1"),
+      ("replaceNestedOneof", "case *schema_j5pb.OneofField_Oneof", "newOneofSchemaNode#1"),
+      ("replaceNestedEnum", "case *schema_j5pb.EnumField_Enum", "newEnumNode#1")] := by decide
+
+/-- …`NestPath` = parent's nest path ++ [name], `NameInPackage` = the same joined by dots — the model's `np ++ [nm]` / `relName np nm` -/
+theorem C13_src_rootReturns :
+    rootReturns = [
+      ("newRoot", "top", "return rootType{ Source: source, name: name, nestPath: nestPath, }"),
+      ("rootType.NestPath", "if len(on.nestPath) == 0", "return []string{on.name}"),
+      ("rootType.NestPath", "top", "return append(slices.Clone(on.nestPath), on.name)"),
+      ("rootType.NameInPackage", "if on.nestPath == nil", "return on.name"),
+      ("rootType.NameInPackage", "top", "return fmt.Sprintf(\"%s.%s\", strings.Join(on.nestPath, \".\"), on.name)")] := by decide
+
+/-- …`nestPath` is set from `parent.NestPath()` only -/
+theorem C13_src_rootNestPath :
+    rootNestPath = [
+      ("newRoot", "top", "other var nestPath []string"),
+      ("newRoot", "if parent != nil", "nestPath = parent.NestPath()"),
+      ("newRoot", "top", "nestPath: nestPath"),
+      ("rootType.NestPath", "top", "cond len(on.nestPath) == 0"),
+      ("rootType.NestPath", "top", "return append(slices.Clone(on.nestPath), on.name)"),
+      ("rootType.NameInPackage", "top", "cond on.nestPath == nil"),
+      ("rootType.NameInPackage", "top", "return fmt.Sprintf(\"%s.%s\", strings.Join(on.nestPath, \".\"), on.name)")] := by decide
+
+/-- mechanism 3 (builders.go): each of `addMessage` / `addEnum` / `addService` (file and message level) has exactly one mutation, an `append` at the end of the target slice — the model's `Root.apply` / `FileB.apply` / `Eff.add` (lists only ever grow at the end: `C13_addMessage_prefix`) -/
+theorem C13_src_builderMutations :
+    builderMutations = [
+      ("fileContext.addMessage", "top", "fb.fdp.MessageType = append(fb.fdp.MessageType, message.descriptor)"),
+      ("fileContext.addEnum", "top", "fb.fdp.EnumType = append(fb.fdp.EnumType, enum.desc)"),
+      ("fileContext.addService", "top", "fb.fdp.Service = append(fb.fdp.Service, service.desc)"),
+      ("MessageBuilder.addMessage", "top", "msg.descriptor.NestedType = append(msg.descriptor.NestedType, message.descriptor)"),
+      ("MessageBuilder.addEnum", "top", "msg.descriptor.EnumType = append(msg.descriptor.EnumType, enum.desc)")] := by decide
+
+end Src
 
 end J5V.Props.C13
